@@ -150,6 +150,26 @@ def guard(ctx: Any) -> List[Ob]:
     tests = [n for n in cfg.nodes if n.kind == 'test' and any(self_attr(x, me) == 'data' for x in ast.walk(n.ast))]
     eff_nodes = [n for n in cfg.nodes if n.kind == 'stmt' and (any(self_attr(t, me) in MEM for t, _ in attr_stores(n.ast)) or any(call_name(c) in dispatch for c in n.calls()))]
     obs.append(ob(R, f, tests[0].ast if tests else 'duplicate test', 'the duplicate test precedes every store and every dispatch', bool(tests) and all(cfg.dominated_by_any(e, tests) for e in eff_nodes)))
+    # the exemption is about QU *questions*: the flag it reads is set only while the question section is decoded (the same
+    # bit of the class word is the cache-flush bit of a record; a reader shared with the record sections would exempt
+    # every response that carries a unique record from duplicate suppression)
+    inc = prog.cls('zeroconf._protocol.incoming.DNSIncoming')
+    hq_m = inc.methods.get('has_qu_question')
+    flag = None
+    if hq_m is not None:
+        rets = [self_attr(r.value, hq_m.params[0]) for r in walk_local_ordered(hq_m.node) if isinstance(r, ast.Return) and r.value is not None]
+        flag = rets[0] if len(rets) == 1 else None
+    if flag is None:
+        raise AnalysisError('anchor vanished: the attribute returned by DNSIncoming.has_qu_question')
+    setters = [g for g in inc.methods.values() if any(self_attr(t, g.params[0]) == flag and not (isinstance(st, ast.Assign) and isinstance(st.value, ast.Constant) and st.value.value is False) for t, st in attr_stores(g.node)) and g.name != '__init__']
+    rq, ro = inc.methods.get('_read_questions'), inc.methods.get('_read_others')
+    if rq is None or ro is None or not setters:
+        raise AnalysisError('anchor vanished: question / record readers or the setter of the QU flag')
+    from_records = ctx.cg.closure([ro], include_deferred=False)
+    from_questions = ctx.cg.closure([rq], include_deferred=False)
+    for g in setters:
+        okq = g in from_questions and g not in from_records
+        obs.append(ob(R, g, f'self.{flag} = True', 'the QU flag is set only from the decoding of the question section, never while records are read', okq, '' if okq else f'{g.name} is reachable from the record reader: a cache-flush bit would count as a QU question'))
     obs.append(per_socket_protocol(ctx, R, 'each socket gets its own protocol object, so the duplicate memory is per socket'))
     # TC deferral ignores an identical packet: decided under C12.WIRING; re-checked minimally
     hq = prog.func('zeroconf._listener.AsyncListener.handle_query_or_defer')
